@@ -89,15 +89,14 @@ impl TimeFilter for ts::TimeSpan {
         let start = self.range.start.as_naive(ctx, date);
         let end = self.range.end.as_naive(ctx, date);
 
-        // If end < start, it actually wraps to next day
-        let end = {
-            if start < end {
-                end
-            } else {
-                end.add_hours(24)
-                    .expect("overflow during TimeSpan resolution")
-            }
-        };
+        // If end < start, it actually wraps to next day. The start of a span can itself be on
+        // the next day (an event with an offset), so the end may have to wrap once more, in which
+        // case the span is cut at the end of that day.
+        let mut end = end;
+
+        while end <= start && end < ExtendedTime::MIDNIGHT_48 {
+            end = end.add_hours(24).unwrap_or(ExtendedTime::MIDNIGHT_48);
+        }
 
         assert!(start <= end);
         start..end
